@@ -60,6 +60,7 @@ func (x *ext) runRound4(i int) {
 			x.ids(i, k)
 		}
 	}
+	x.runRound5(i)
 	q := &x.r4
 	c.Count("layout/documents-compared", q.layoutCompared)
 	c.Count("layout/images-with-a-multi-page-cpuid-section", q.layoutMultiCpuid)
@@ -333,8 +334,11 @@ func (x *ext) judgeThroughCommand(j *judge, r *rand.Rand, i int, entry string, i
 		if req.LaunchVmsas != 0 {
 			v.kv("snp_launch_vmsas", fmt.Sprint(req.LaunchVmsas))
 		}
-		if req.Product == spb.SevProduct_SEV_PRODUCT_GENOA {
+		switch req.Product {
+		case spb.SevProduct_SEV_PRODUCT_GENOA:
 			v.kv("snp_product", "Genoa")
+		case spb.SevProduct_SEV_PRODUCT_TURIN: // only the "products" family asks for it
+			v.kv("snp_product", "Turin")
 		}
 		if req.FamilyID != "" {
 			v.kv("snp_family_id", req.FamilyID)
